@@ -297,7 +297,10 @@ def finish(rep, cases, impl, disagreements):
         seen.add(k)
         why = oracle(cases[k], impl[k])
         if why:
-            rep.violation({'kind': 'input', 'case': shrink(cases[k]), 'fails': why,
+            small = shrink(cases[k])
+            why = fails(small) or why
+            cl.cleanup('C15')
+            rep.violation({'kind': 'input', 'case': small, 'fails': why,
                            'broken': rep.broken,
                            'disagreement': next((d for kk, d in disagreements if kk == k), None)})
             return
